@@ -251,9 +251,8 @@ func (opts GeneratorOptions) genAny(
 	}
 
 	var typeURL string
-	fopts := field.Options()
-	if proto.HasExtension(fopts, cosmos_proto.E_AcceptsInterface) {
-		ai := proto.GetExtension(fopts, cosmos_proto.E_AcceptsInterface).(string)
+	if field != nil && proto.HasExtension(field.Options(), cosmos_proto.E_AcceptsInterface) {
+		ai := proto.GetExtension(field.Options(), cosmos_proto.E_AcceptsInterface).(string)
 		if impl, found := opts.InterfaceHints[ai]; found {
 			typeURL = fmt.Sprintf("/%s", impl)
 		} else {
